@@ -144,7 +144,9 @@ def run(ctx):
                 "around the refill time incl. backwards steps) on the limiter built by newRateLimiter; mapping: all pairs of 10 limits "
                 "(exhaustive over that set); conn: Read/Write x 8 sizes x 3 errors x 4 limiter configurations through NewListener+Accept "
                 "on a scripted conn; e2e: uploads/downloads of burst + 2..3 R bytes through the real proxy listener, plain and CONNECT "
-                "tunnels, 1 and 3 connections, timing lower bounds only. non-trivial = limiter cases in which at least one reservation "
+                "tunnels, 1 and 3 connections, timing lower bounds only; time-boxed transfers (6.5 s window) with 24 connections sharing 64 KiB/s "
+                "and 8 sharing 2 KiB/s, and transfers in flight across a close of the proxy's listeners (bytes inside the window against "
+                "burst + R*t + slack). non-trivial = limiter cases in which at least one reservation "
                 "had to wait + every mapping/conn/e2e case",
         "traces_validated_against_impl": evals,
         "model_mismatches": len(model_bad),
